@@ -27,6 +27,9 @@ CHECKS['C19'] = dict(cat='model_checking', tech='explicit-state BFS over value/l
 CHECKS['C15'] = dict(cat='model_checking', tech='deviation-bounded exhaustive enumeration of handler programs on the real cif_parse in storing and syntax-only mode, AST reference for callback log and stored content',
       text='For 7 generated well-formed documents (scalars, loops, frames, lists/tables, comments, several blocks) every handler program with at most 3 (quick) / 4 (thorough) non-CONTINUE answers out of {SKIP_CURRENT, SKIP_SIBLINGS, END, positive code} is parsed twice on the real library - into a new CIF and syntax-only - with handler and syntax callbacks logged. A reference walking the AST in document order checks the callback sequence, item names/values, the return code, that nothing is delivered for bypassed entities or after END/error, that the stored content is exactly what was accepted, and that both modes produce the same sequence.',
       note='Where the statement is silent (end callback after a SKIP answer, existence of the empty container whose own start callback answered SKIP, effect of SKIP answered by packet_end or by an item inside a packet, content of the element in progress when END is answered) both outcomes are admitted.', ref='C15')
+CHECKS['C10'] = dict(cat='exploration', engine='numcheck', tech='bounded-exhaustive enumeration of number strings and structured doubles in-process, oracle = glibc strtod / exact decimal expansion with string-arithmetic half-even rounding',
+      text='Acceptance: ALL strings of length <= 6 (quick) / 7 (thorough) over the 11-character alphabet 0 1 9 + - . e E ( ) x against an independent recogniser, with the refused value checked unchanged. Text to double: every mantissa of <= 3 / 4 digits with the decimal point at every position x every exponent in [-330, 310]; for binades and 7 mantissa patterns the exact value, the exact tie with the successor, tie +- one unit in the last digit; 17/19-digit spellings; 10^(9k) boundaries - all compared bit-for-bit with strtod. Double to text: init_numb / autoinit_numb over classic decimals, binade boundaries and exact decimal ties x scales x uncertainties x leading-zero limits x su rules against exact decimal expansions rounded half-even, the documented plain/scientific rule and parse-back.',
+      note='glibc strtod/printf are the trusted oracle (a slice is re-derived with exact rationals). Only zero and normal-range magnitudes are judged, default rounding mode. An su that rounds to zero may be written "(0)" or omitted.', ref='C10')
 NOT_APPLICABLE = {}
 
 def main():
